@@ -8,7 +8,7 @@ one() {
   d=$1
   prop=$(echo $d | grep -oE '/C[0-9][0-9]/' | tr -d / | head -1)
   if [ -n "$prop" ]; then props=$prop; else props="C01 C02 C03 C04 C05 C06 C07 C08 C09 C10 C11 C12 C13 C14 C15 C16 C17 C18 C19 C20"; fi
-  /verif/bin/kyverif try $d/patch.diff $props > /tmp/tryall.$$.$(echo $d | tr / _).out 2>&1
+  ${KYVERIF:-/verif/bin/kyverif} try $d/patch.diff $props > /tmp/tryall.$$.$(echo $d | tr / _).out 2>&1
   f=/tmp/tryall.$$.$(echo $d | tr / _).out
   if [ -n "$prop" ]; then
     rules=$(grep -oE "\[[A-Z-]+\]" $f | sort | uniq -c | tr '\n' ' ')
